@@ -173,4 +173,66 @@ def sliceFreeVars (a b : Dom K) (σ : Env K) : List String :=
 
 end slice
 
+/-! ### user-set volumes (`Domain.set_volume`) under `__call__`
+
+  `volume(params)` returns the user's function when one was set, else the built-in `_get_volume`.
+  Since /repo 98178e0 every `__call__` hands the user volume, partially evaluated, on to the copy
+  (`Domain._evaluate_user_volume`); the pinned snapshot dropped it. -/
+
+/-- a domain object with the volume the user set on it (if any) -/
+structure UDom (K : Type) where
+  dom : Dom K
+  uvol : Option (PFun K)
+
+def UDom.peval {K} (σ : Env K) (u : UDom K) : UDom K := ⟨u.dom.peval σ, u.uvol.map (·.peval σ)⟩
+
+/-- pinned snapshot: the evaluated copy has no user volume -/
+def UDom.pevalOld {K} (σ : Env K) (u : UDom K) : UDom K := ⟨u.dom.peval σ, none⟩
+
+/-- `Domain.volume(params)` for one row; `builtin` = `_get_volume` of the expression -/
+def UDom.volume {K} (builtin : Dom K → Env K → Option K) (u : UDom K) (ρ : Env K) : Option K :=
+  match u.uvol with
+  | some f => (match f.f ρ with | [x] => some x | _ => none)
+  | none => builtin u.dom ρ
+
+/-! ### a heap-style model of `__call__` for the purity statement
+
+  Every shape parameter is a `UserFunction` object whose only mutable part is its `defaults` dict.
+  Cell `i` of the heap is the `defaults` of parameter object `i`; a domain object is (for this purpose)
+  the list of its parameter objects in traversal order.  `partially_evaluate` works on a deep copy:
+  a *new* cell `σ|args ++ old defaults`; the variant without the copy writes into the old cell. -/
+
+abbrev Heap (K : Type) := List (Env K)
+
+structure PRef where
+  args : List String
+  cell : Nat
+deriving DecidableEq, Repr
+
+/-- `set_default(**σ)`: only the keys that are arguments of the function -/
+def restrictTo {K} (args : List String) (σ : Env K) : Env K := σ.filter (fun b => args.contains b.1)
+
+/-- `D(**σ)` as coded (deep copy, then `set_default`): the new object's parameter objects and the heap
+    after the call; `none` = dangling reference (cannot happen for objects built by the constructors) -/
+def callCopy {K} (σ : Env K) : List PRef → Heap K → Option (List PRef × Heap K)
+  | [], h => some ([], h)
+  | r :: rs, h =>
+    match h[r.cell]? with
+    | none => none
+    | some d =>
+      match callCopy σ rs (h ++ [restrictTo r.args σ ++ d]) with
+      | none => none
+      | some (rs', h') => some (⟨r.args, h.length⟩ :: rs', h')
+
+/-- the same without the deep copy (`copy_self = self`): the defaults of the original are overwritten -/
+def callInPlace {K} (σ : Env K) : List PRef → Heap K → Option (Heap K)
+  | [], h => some h
+  | r :: rs, h =>
+    match h[r.cell]? with
+    | none => none
+    | some d => callInPlace σ rs (h.set r.cell (restrictTo r.args σ ++ d))
+
+/-- everything an object can observe of its parameter objects: their defaults -/
+def readObj {K} (refs : List PRef) (h : Heap K) : List (Option (Env K)) := refs.map fun r => h[r.cell]?
+
 end TPV.Geom
